@@ -825,13 +825,13 @@ pub fn anf_file(liftenv: GlobalLiftEnv, gensym: &Gensym, file: LiftFile) -> (Fil
 
 pub mod anf_renamer {
     use crate::anf;
-    use std::collections::HashSet;
+    use std::collections::BTreeSet;
 
     /// Locals are named `hint/index` up to here and `hint__index` in the Go text. A top-level
     /// function keeps the name it was written with, and that may be `f__3`: such a local gets
     /// more underscores until it is nobody's name.
     pub fn rename(file: anf::File) -> anf::File {
-        let taken: HashSet<String> = file.toplevels.iter().map(|f| f.name.clone()).collect();
+        let taken: BTreeSet<String> = file.toplevels.iter().map(|f| f.name.clone()).collect();
         anf::File {
             toplevels: file
                 .toplevels
@@ -841,7 +841,7 @@ pub mod anf_renamer {
         }
     }
 
-    fn local_name(name: &str, taken: &HashSet<String>) -> String {
+    fn local_name(name: &str, taken: &BTreeSet<String>) -> String {
         if !name.contains('/') {
             return name.to_string();
         }
@@ -855,7 +855,7 @@ pub mod anf_renamer {
         }
     }
 
-    fn rename_fn(f: anf::Fn, taken: &HashSet<String>) -> anf::Fn {
+    fn rename_fn(f: anf::Fn, taken: &BTreeSet<String>) -> anf::Fn {
         anf::Fn {
             name: f.name,
             params: f
@@ -868,7 +868,7 @@ pub mod anf_renamer {
         }
     }
 
-    fn rename_imm(imm: anf::ImmExpr, taken: &HashSet<String>) -> anf::ImmExpr {
+    fn rename_imm(imm: anf::ImmExpr, taken: &BTreeSet<String>) -> anf::ImmExpr {
         match imm {
             anf::ImmExpr::ImmVar { name, ty } => anf::ImmExpr::ImmVar {
                 name: local_name(&name, taken),
@@ -879,7 +879,7 @@ pub mod anf_renamer {
         }
     }
 
-    fn rename_cexpr(e: anf::CExpr, taken: &HashSet<String>) -> anf::CExpr {
+    fn rename_cexpr(e: anf::CExpr, taken: &BTreeSet<String>) -> anf::CExpr {
         match e {
             anf::CExpr::CImm { imm } => anf::CExpr::CImm {
                 imm: rename_imm(imm, taken),
@@ -997,7 +997,7 @@ pub mod anf_renamer {
         }
     }
 
-    fn rename_aexpr(e: anf::AExpr, taken: &HashSet<String>) -> anf::AExpr {
+    fn rename_aexpr(e: anf::AExpr, taken: &BTreeSet<String>) -> anf::AExpr {
         match e {
             anf::AExpr::ACExpr { expr } => anf::AExpr::ACExpr {
                 expr: rename_cexpr(expr, taken),
